@@ -161,16 +161,16 @@ func (g *Gen) randToks(cfg *batchCfg, docFields []string, composite bool) ([]Tok
 		total += t.Freq
 		toks = append(toks, t)
 	}
+	// the analysed length is whatever the field reports: usually the number of tokens, but also 0
+	// beside tokens (frequency-less fields), and lengths whose 32 norm bits are zero or need the
+	// 32nd bit (the merge's single-hit form keeps 31 of them: defect D14)
 	ln := total
-	if ln == 0 && len(toks) > 0 {
-		ln = 1
-	}
 	if len(toks) > 0 && g.chance(0.2) {
 		ln += g.r.Intn(200)
 	}
-	if len(toks) > 0 && g.chance(0.06) {
+	if len(toks) > 0 && g.chance(0.08) {
 		// analysed lengths whose norm has a 0x80 byte in its varint, and very long fields
-		ln = []int{128, 256, 1024, 16384, 1 << 20, 128 * (1 + g.r.Intn(100))}[g.r.Intn(6)]
+		ln = []int{128, 256, 1024, 16384, 1 << 20, 128 * (1 + g.r.Intn(100)), 0, 0, 1 << 31, 1<<31 + 5, 1 << 32, 1<<32 - 1}[g.r.Intn(12)]
 	}
 	return toks, ln
 }
